@@ -1654,6 +1654,34 @@ struct Gen
 		}
 		if(N >= 1000 && r.chance(0.6))
 			cl[ncl - 1].behaviour = 4;	 // large tables: make sure the long strides of the hunt are probed
+		// Special arguments first: the abscissae as the caller passed them BEFORE the unit factor was applied (a value in the
+		// wrong units is a natural thing to ask), 0 and 1 - as the very first look-ups of the object, before and after a copy
+		if(!two_d && r.chance(tab.x_dim > 0 ? 0.6 : 0.1))
+		{
+			std::vector<double> special = {0.0, 1.0};
+			for(size_t i = 0; i < tab.x.size() && i < 3; i++)
+				special.push_back(tab.x[i]);
+			special.push_back(tab.x.back());
+			if(r.chance(0.3))
+				p.ops.push_back(Op("copy", {0, 1, 0}));	  // a copy taken before any look-up
+			int slot0 = 0;
+			for(int q = 0; q < 3; q++)
+			{
+				double x = r.pick(special);
+				if(!arg_valid(tab.xs, x))
+					continue;
+				int w = (int) r.below(4);
+				if(w == 0)
+					p.ops.push_back(Op("interp", {slot0}, {x}));
+				else if(w == 1)
+					p.ops.push_back(Op("locate", {slot0}, {x}));
+				else if(w == 2)
+					p.ops.push_back(Op("deriv", {slot0, (long long) r.irange(0, 2)}, {x}));
+				else
+					p.ops.push_back(Op("xprobe", {slot0, (long long) r.pick(std::vector<long long>{0, 2, 8}), 1}, {x}));
+				slot0 = r.chance(0.5) ? 0 : 1;
+			}
+		}
 		// op mix
 		double w_val, w_int, w_loc, w_glob, w_locate, w_pref, w_copy, w_sweep;
 		if(c08)
@@ -1749,6 +1777,8 @@ struct Gen
 					b = point(r, tab.xs, cj, (int) r.below(3));	  // inside one interval
 				else
 					b = next_point(r, c, tab.xs, c.cursor);
+				if(r.chance(0.04))
+					b = a;	 // equal limits
 				o = Op("integ", {c.slot}, {a, b});
 			}
 			else if(cat == 2)
